@@ -184,3 +184,130 @@ Theorem C05_rearm_for_task : forall w s c evs s' y k b w',
   snd (task_receive (csf_first_yield w' y b) y) = None.
 Proof. exact rearm_for_task. Qed.
 Print Assumptions C05_rearm_for_task.
+
+(* ------------------------------------------------------------------------
+   aiter_sync over a NATIVE ASYNC GENERATOR OBJECT -- CPython 3.12.1's object of
+   Coro/AsyncGen.v (frame, ag_running_async, ag_closed; validated against
+   CPython by ./check C06) -- not only over the abstract iterable of C05_aiter.
+
+   [aiter_ag fixd w (a, None) take] (Coro/AiterGen.v) is aiter_sync over the
+   generator object a, no awaitable of it being suspended; the consumer takes at
+   most [take] values.  await_sync(helper()) with `helper = return await
+   ai.__anext__()` STARTS the call __anext__() ([HStart (CSend VNone)], a step of
+   a consumer history of AsyncGen.v); if that yields to the (absent) loop it
+   RESUMES the suspended awaitable with throw(SynchronousAbort())
+   ([HResume (Throw SynchronousAbort)]); if the body swallows the abort and
+   suspends again, helper.close() calls asend.close(), which on CPython 3.12
+   only marks the awaitable closed.  aiter_sync never calls aclose().
+     [ag_trace (a, None) (nexts n)]  what n successive __anext__() calls driven by
+                                     hand show (events, outcome, ... per call),
+     [ag_after ..]                   the object after them,
+     [is_value o]                    the call returned a value (StopIteration(d)),
+     [items tr]                      the events of a trace with [item d] after
+                                     each call that returned d.
+   Result: [ii_events] body events interleaved with [item v] per value handed
+   out, [ii_end] (AEnd / ARaise what await_sync raised / ATaken), [ii_state] the
+   generator object and its suspended awaitable afterwards, [ii_world] the
+   futures, [ii_ignored] "the body swallowed the abort and suspended again". *)
+From Asynkit Require Import Base.Obs Coro.AsyncGen Coro.GenObj Coro.AiterGen Coro.AiterGenProofs.
+
+(* A generator (not running) whose first n __anext__() calls return values
+   without suspending and whose next one raises e: aiter_sync hands out exactly
+   those n values in order, each after the body events of its call, then the
+   events of the last call; it ends normally when e is StopAsyncIteration (the
+   body returned / the generator was exhausted) and otherwise propagates e
+   unchanged; no future is touched; the generator object is left as the n+1
+   calls by hand leave it: not running, nothing suspended, frame gone. *)
+Theorem C05_aiter_asyncgen : forall fixd w a n take,
+  ag_run a = false ->
+  let tr := ag_trace (a, None) (nexts n) in
+  Forall is_value tr ->
+  let '(o, st') := ag_hstep (ag_after (a, None) (nexts n)) (HStart (CSend VNone)) in
+  forall e, ho_out o = Some (ORaise e) ->
+  let r := aiter_ag fixd w (a, None) (n + S take)%nat in
+  ii_events r = items tr ++ ho_events o /\
+  ii_end r = (if is_sai e then AEnd else ARaise (SyRaise e)) /\
+  ii_world r = w /\ ii_ignored r = false /\
+  ii_state r = st' /\ snd st' = None /\ ag_run (fst st') = false /\ ag_fr (fst st') = FDone.
+Proof. exact aiter_ag_complete. Qed.
+Print Assumptions C05_aiter_asyncgen.
+
+(* The consumer stops after n values: it got exactly those; the generator is left
+   suspended at its n-th yield, not running -- and NOT closed. *)
+Theorem C05_aiter_asyncgen_taken : forall fixd w a n,
+  ag_run a = false ->
+  let tr := ag_trace (a, None) (nexts n) in
+  Forall is_value tr ->
+  let r := aiter_ag fixd w (a, None) n in
+  ii_events r = items tr /\ ii_end r = ATaken /\ ii_world r = w /\ ii_ignored r = false /\
+  ii_state r = ag_after (a, None) (nexts n) /\
+  snd (ii_state r) = None /\ ag_run (fst (ii_state r)) = false.
+Proof. exact aiter_ag_taken. Qed.
+Print Assumptions C05_aiter_asyncgen_taken.
+
+(* After n values the next __anext__() suspends (the body awaits something that
+   yields y to the loop).  The n values have been handed out; SynchronousAbort
+   is thrown into the suspended __anext__() awaitable, i.e. into the body at its
+   suspension point (o1 = that step of the history); all events of both steps
+   are logged; then
+   - the body lets an exception e out (the abort itself, or what its handlers /
+     finally blocks made of it; PEP 479/525 applied at the generator's frame):
+     SynchronousError chained to e; the awaitable has ended, the generator's
+     frame is gone, it is not running;
+   - the body catches the abort and yields a value: SynchronousError "(caught
+     BaseException)" without cause; the value is dropped; the generator is left
+     suspended at that yield, not running -- and not closed;
+   - (outside the property's domain) the body catches the abort and suspends
+     again: SynchronousError chained to RuntimeError("coroutine ignored
+     SynchronousAbort"); helper.close() closes the asend awaitable, which does
+     not resume the generator: it is left SUSPENDED INSIDE THE AWAIT WITH
+     ag_running_async SET and no awaitable that could resume it ([ii_ignored]).
+   The object the body was suspended on is handled as in C05_object_untouched:
+   [capture fixd (arm w y) y] is the world after Future.__await__ set y's flag
+   and (repaired code) CoroStart cleared it again. *)
+Theorem C05_aiter_asyncgen_blocking : forall fixd w a n take,
+  ag_run a = false ->
+  let tr := ag_trace (a, None) (nexts n) in
+  Forall is_value tr ->
+  let '(o0, st0) := ag_hstep (ag_after (a, None) (nexts n)) (HStart (CSend VNone)) in
+  forall y, ho_out o0 = Some (OYield y) ->
+  let '(o1, st1) := ag_hstep st0 (HResume (Throw SynchronousAbort)) in
+  let r := aiter_ag fixd w (a, None) (n + S take)%nat in
+  let w1 := fst (capture fixd (arm w y) y) in
+  ii_events r = items tr ++ ho_events o0 ++ ho_events o1 /\
+  match ho_out o1 with
+  | Some (ORaise e) =>
+      ii_end r = ARaise (SySyncError false (Some e)) /\ ii_world r = w1 /\ ii_ignored r = false /\
+      ii_state r = st1 /\ snd st1 = None /\ ag_run (fst st1) = false /\ ag_fr (fst st1) = FDone
+  | Some (OReturn _) =>
+      ii_end r = ARaise (SySyncError true None) /\ ii_world r = w1 /\ ii_ignored r = false /\
+      ii_state r = st1 /\ snd st1 = None /\ ag_run (fst st1) = false /\
+      exists k, ag_fr (fst st1) = FSusp k
+  | Some (OYield y2) =>
+      ii_end r = ARaise (SySyncError false (Some rt_ignored_abort)) /\
+      ii_world r = fst (capture fixd (arm w1 y2) y2) /\ ii_ignored r = true /\
+      ii_state r = (fst st1, None) /\ ag_run (fst st1) = true /\
+      exists k, ag_fr (fst st1) = FSusp k
+  | None => False
+  end.
+Proof. exact aiter_ag_blocking. Qed.
+Print Assumptions C05_aiter_asyncgen_blocking.
+
+(* The driver over the generator OBJECT is not a second model of await_sync: one
+   await_sync(helper()) over a generator that is not running IS C05's own
+   [await_sync] (the function of the theorems above, validated by ./check C05)
+   applied to the tree of helper() awaiting the generator's asend object --
+   [anext_tree a] runs the generator's frame up to its next `yield` and converts
+   the end of the body (return -> StopAsyncIteration, PEP 479/525),
+   [helper_asend] is AwaitSync.v's `await` of an asend object -- : same events,
+   same outcome (value / exception / SynchronousError and its cause / what
+   close() raised), same ContextVars, same futures; the helper coroutine is
+   finished in every case. *)
+Theorem C05_await_sync_asyncgen_tree : forall fixd w a,
+  ag_run a = false ->
+  let r := await_sync_ag fixd w (a, None) in
+  let t := await_sync fixd w (ag_st a) (helper_asend (anext_tree a)) in
+  si_events r = sr_events t /\ si_out r = sr_out t /\ ag_st (fst (si_state r)) = sr_store t /\
+  si_world r = sr_world t /\ sr_obj t = Finished.
+Proof. exact await_sync_ag_tree. Qed.
+Print Assumptions C05_await_sync_asyncgen_tree.
